@@ -156,3 +156,37 @@ Theorem C14_t_range_binary64 :
   Helix_proofs.rn (tr_t_inner PrimFloat.float tr) /\ Helix_proofs.rn (tr_t_outer PrimFloat.float tr).
 Proof. exact fit_t_range_binary64_lemma. Qed.
 Print Assumptions C14_t_range_binary64.
+
+(* fit_skeleton_total for the binary64 instance (the instance the differential tag fit3 runs): the IEEE hypotheses
+   (N1), (N2) are discharged through Flocq's link to primitive floats — the radii only have to be finite with
+   |r| <= 1 m (Rabs_le1; the quantifier has r <= 0.25 m) — so only the genuinely numeric gaps (N3), (N4) remain *)
+Theorem C14_fit_skeleton_total_binary64 :
+  forall (L : libm) guess6 bump point_val closest nm sd_tol_ok (pts : list spoint),
+  (* radii *) (forall p, In p pts -> Fit_proofs.Rabs_le1 (sp_r p)) ->
+  (* N3 *) (forall p q, In q pts -> PrimFloat.is_nan (point_val p q) = false) ->
+  (* N4 *) (forall (c : list PrimFloat.float -> res PrimFloat.float) s n,
+     (forall p, length p = n -> c p <> Panic /\ forall k, c p <> Err k) ->
+     Forall (fun v => length v = n) s -> s <> [] ->
+     exists v, nm c s = Ok (Some v) /\ length v = n) ->
+  (* N5 *) (forall f m l, length (guess6 pts f m l) = 6) -> sd_tol_ok = true -> 3 <= length pts ->
+  let fit := fit_cluster_to_helix PrimFloat.float spoint sp_r (sp_x L) (sp_y L) PrimFloat.ltb PrimFloat.eqb fcmp_prim
+               PrimFloat.is_nan PrimFloat.add PrimFloat.sub PrimFloat.mul (fun x => PrimFloat.div x 2%float)
+               PrimFloat.abs 0%float guess6 bump point_val closest nm sd_tol_ok in
+  fit pts <> Panic /\ (forall k, fit pts = Err k -> k = E_noinit).
+Proof. exact fit_skeleton_total_binary64_lemma. Qed.
+Print Assumptions C14_fit_skeleton_total_binary64.
+
+(* ---- OPEN FINDING `tinyphi` (harness tags rel14kf-tinyphi-*, corpus/C14/tinyphi.case) ----
+   On the class recognised by Fit.tinyphi_class the numeric hypothesis (N3) is false of the implementation (it panics at
+   track_fitting.rs:265).  The theorems above are conditional on (N3), so none of them is contradicted; they say nothing
+   on this class.  Pinned here: the witness is in the class, and already in the binary64 model closest_t of the fit's
+   initial guess is NaN because e = 4 pi^2 r R / h^2 = inf/inf. *)
+Theorem C14_tinyphi_known_witness :
+  tinyphi_class tinyphi_witness = true
+  /\ match tinyphi_witness with
+     | p :: _ => PrimFloat.is_nan (closest_t tinyphi_libm tinyphi_guess p EPS 20) = true
+                 /\ PrimFloat.is_nan (kf_e (kepler_setup tinyphi_libm tinyphi_guess p)) = true
+     | [] => False
+     end.
+Proof. exact (conj tinyphi_witness_in_class tinyphi_witness_nan). Qed.
+Print Assumptions C14_tinyphi_known_witness.
